@@ -292,6 +292,7 @@ def one_case(run, fname, pkind, opts, fault, rng):
         params = make_params(pkind, module, rng)
     except Exception as e:  # noqa: BLE001
         run.count("zoo.skipped", f"params:{type(e).__name__}")
+        run.oracle_fail("zoo_entry", case, f"building the parameter tensordict ({pkind}) raised {type(e).__name__}: {str(e)[:100]}", f"zoo:params:{pkind}:{type(e).__name__}")
         return
     before, vals_before = snap(module), values(module)
     # reference output on an independent copy
@@ -409,8 +410,15 @@ def one_case(run, fname, pkind, opts, fault, rng):
         if handle is not None:
             handle.remove()
     if not entered:
-        # to_module itself refused this combination (e.g. inplace with use_state_dict): outside the property
         run.count("zoo.entry_error", f"{fname}/{pkind}/{sorted(opts)}:{type(raised).__name__}")
+        if fname == "lazy" and opts.get("inplace"):
+            # a legitimate refusal: values cannot be copied into an uninitialised parameter
+            return
+        # the parameters were taken from this very module: to_module has no reason to refuse them
+        left = diff(before, snap(module))
+        run.oracle_fail("zoo_entry", case, f"to_module({', '.join(f'{k}={v}' for k, v in sorted(opts.items()))}) raised {type(raised).__name__}: "
+                        f"{str(raised)[:80]} on parameters taken from the module itself" + (f"; the module is left modified: {left[:3]}" if left else ""),
+                        f"zoo:entry:{fname}:{'+'.join(sorted(opts)) or 'default'}:{type(raised).__name__}")
         return
     if raised is not None and not isinstance(raised, Boom):
         run.count("zoo.body_or_exit_error", f"{fname}/{pkind}/{sorted(opts)}/{fault}:{type(raised).__name__}")
@@ -481,6 +489,7 @@ def vmap_cases(run, rng):
             raise
         except Exception as e:  # noqa: BLE001
             run.count("zoo.vmap_error", f"{fname}:{type(e).__name__}")
+            run.oracle_fail("zoo_output", case, f"vmap over batched parameters raised {type(e).__name__}: {str(e)[:100]}", f"zoo:vmap:raised:{type(e).__name__}")
             continue
         d = diff(before, snap(module))
         if d:
@@ -555,6 +564,7 @@ def vmap_variants(run, rng):
             continue
         except Exception as e:  # noqa: BLE001
             run.count("zoo.vmap_error", f"{fname}:{variant}:{type(e).__name__}")
+            run.oracle_fail("zoo_output", case, f"vmap variant raised {type(e).__name__}: {str(e)[:100]}", f"zoo:vmap:raised:{variant}:{type(e).__name__}")
             d = diff(before, snap(module))
             if d:
                 run.oracle_fail("zoo_restore", case, f"module differs after a failed vmap ({type(e).__name__}): " + ",".join(d[:4]), "zoo:vmap:" + d[0].split(":")[0])
@@ -567,6 +577,71 @@ def vmap_variants(run, rng):
         else:
             run.oracle_ok("zoo_restore")
             run.oracle_ok("zoo_output")
+
+
+class StateDictHooked(nn.Module):
+    """a submodule with a load_state_dict pre-hook that rewrites an entry (what `use_state_dict=True` is for)"""
+
+    def __init__(self):
+        super().__init__()
+        self.lin = nn.Linear(3, 2)
+        self.register_buffer("scale", torch.ones(2))
+        self.lin._register_load_state_dict_pre_hook(self._double)
+
+    @staticmethod
+    def _double(state_dict, prefix, local_metadata, strict, missing_keys, unexpected_keys, error_msgs):
+        if prefix + "weight" in state_dict:
+            state_dict[prefix + "weight"] = state_dict[prefix + "weight"] * 2
+
+    def forward(self, x):
+        return self.lin(x) * self.scale
+
+
+def state_dict_hook_oracle(run):
+    """to_module(use_state_dict=True) on a module with a load_state_dict pre-hook: inside the block the module computes what a
+    copy computes after `load_state_dict(params)` (the hook ran); without use_state_dict the hook does not run; and when the
+    block exits the module holds its own objects again."""
+    from tensordict import TensorDict
+    for fault in ("none", "before"):
+        case = ["state_dict_hook", fault]
+        run.case("zoo:state_dict_hook:" + fault)
+        torch.manual_seed(9)
+        module = StateDictHooked()
+        x = torch.randn(4, 3)
+        before = snap(module)
+        params = TensorDict.from_module(module).data.apply(lambda t: t + 1.0)
+        ref = copy.deepcopy(module)
+        ref.load_state_dict({".".join(k) if isinstance(k, tuple) else k: v for k, v in params.items(True, True)})
+        inside = None
+        try:
+            with time_limit(60):
+                try:
+                    with params.to_module(module, use_state_dict=True):
+                        if fault == "before":
+                            raise Boom()
+                        inside = module(x).detach().clone()
+                except Boom:
+                    pass
+                with params.to_module(module):
+                    plain_ok = torch.equal(module.lin.weight, params["lin", "weight"])
+        except TimeoutError:
+            raise
+        except Exception as e:  # noqa: BLE001
+            run.oracle_fail("zoo_output", case, f"raised {type(e).__name__}: {str(e)[:100]}", "zoo:state_dict_hook:raised")
+            continue
+        if inside is not None and not torch.allclose(inside, ref(x).detach(), atol=1e-6):
+            run.oracle_fail("zoo_output", case, "inside the block the module does not compute what load_state_dict(params) gives (the state-dict pre-hook)",
+                            "zoo_output:state_dict_hook")
+        elif not plain_ok:
+            run.oracle_fail("zoo_output", case, "the state-dict pre-hook ran although use_state_dict was not requested", "zoo_output:state_dict_hook:plain")
+        else:
+            run.oracle_ok("zoo_output")
+        d = diff(before, snap(module))
+        if d:
+            run.oracle_fail("zoo_restore", case, "use_state_dict=True with a load_state_dict pre-hook: the module is not restored when the block exits "
+                            "(the hooks run again on the tensors that are put back): " + ",".join(d[:4]), "zoo:state_dict_hook:not-restored")
+        else:
+            run.oracle_ok("zoo_restore")
 
 
 def from_module_options(run):
@@ -706,3 +781,4 @@ def run_zoo(run):
         one_case(run, f, pk, OPTIONS[o], ft, rng)
     vmap_cases(run, rng)
     vmap_variants(run, rng)
+    state_dict_hook_oracle(run)
